@@ -215,8 +215,10 @@ def run(ctx):
             continue
         n_ref += 1
         allowed = {norm(ast.parse(k, mode='eval').body, limit=1000): v for k, v in NOOP_RETURNS.get(f.qual, {}).items()}
-        from ..typestate import resolve_flags
-        allowed_nodes = {n.id for n in g.nodes if n.kind == 'test' and (norm(n.ast, limit=1000) in allowed or norm(resolve_flags(f.node, n.ast, attrs=True), limit=1000) in allowed)}
+        from ..typestate import resolve_flags, canon_test
+        allowed = dict(allowed, **{norm(canon_test(ast.parse(k, mode='eval').body), limit=1000): v for k, v in NOOP_RETURNS.get(f.qual, {}).items()})
+        allowed_nodes = {n.id for n in g.nodes if n.kind == 'test' and (norm(n.ast, limit=1000) in allowed or norm(resolve_flags(f.node, n.ast, attrs=True), limit=1000) in allowed
+                                                                        or norm(canon_test(resolve_flags(f.node, n.ast, depth=0, attrs=True)), limit=1000) in allowed)}
         for k in allowed: ctx.exception('C32-LIVE', '%s: `%s`' % (f.qual, k), allowed[k])
         r = g.reach([g.entry], avoid=tests, edge_ok=lambda x, y, lab: not (x in allowed_nodes and lab == 'T'))
         ok = g.exit.id not in r
